@@ -82,13 +82,17 @@ def apply_edit(tree, path, edit):
         node.data = "xor_composition" if node.data != "xor_composition" else "or_composition"
     elif kind == "insert":
         children.insert(0, Tree("condition", [Token("CONDITION_KEY", "4714")]))
+    elif kind == "token_attr":
+        tokens = [c for c in children if isinstance(c, Token)]
+        if tokens:
+            tokens[0].value = "4715"  # what evaluation reads from a token is its .value attribute
     else:
         raise ValueError(kind)
     return f"{kind}@{path}"
 
 
 EDITS = [["append"], ["pop"], ["clear"], ["reverse"], ["replace_token", 0], ["replace_token", 1], ["replace_tree", 0],
-         ["replace_tree", 1], ["rename"], ["insert"]]
+         ["replace_tree", 1], ["rename"], ["insert"], ["token_attr"]]
 
 
 # ---------------------------------------------------------------------------------------------------- operations
